@@ -408,15 +408,50 @@ def equal_content(a, b):
     return simp(z3.ForAll([x], body))
 
 
+def obj_key(obj, kname=None):
+    """identity of a *named* (input / contract-result) object as a key term of its class's sort"""
+    if not isinstance(obj, SObj) or obj.cls is None or obj.name is None:
+        raise Unsupported(f'{obj!r} used as a key / ghost argument: only named symbolic objects have an identity term')
+    return z3.Const(obj.name, key_sort(kname or obj.cls.name))
+
+
+def seq_at(P, seq, i):
+    """total element access of a symbolic key sequence (spec side)"""
+    if isinstance(seq, SymKeySeq):
+        return SymKey(seq.at(as_z3int(i)), seq.kname)
+    if isinstance(seq, (tuple, list)) and isinstance(i, int):
+        return seq[i] if 0 <= i < len(seq) else None
+    raise Unsupported(f'seq_at on {seq!r}')
+
+
+def seq_len(P, seq):
+    if isinstance(seq, SymKeySeq):
+        return seq.length
+    if isinstance(seq, (tuple, list)):
+        return len(seq)
+    raise Unsupported(f'seq_len on {seq!r}')
+
+
 # ------------------------------------------------------------ quantifiers
+
+def forall_ints(P, fn):
+    """∀ i : int. fn(i)   (fn must evaluate without forking or side effects)"""
+    return _forall(P, z3.Int, lambda x: x, fn, 'forall_ints')
+
+
 
 def forall_keys(P, kname, fn):
     """∀ k : Key[kname]. fn(k)   (fn must evaluate without forking or side effects)"""
     from .interp import MergeAbort
     if not isinstance(kname, str):
         raise InterpError('forall_keys(kname, fn): kname must be a string literal')
+    return _forall(P, lambda n: z3.Const(n, key_sort(kname)), lambda x: SymKey(x, kname), fn, 'forall_keys')
+
+
+def _forall(P, mk, wrap, fn, what):
+    from .interp import MergeAbort
     P.counter += 1
-    x = z3.Const(f'k!q{P.counter}', key_sort(kname))
+    x = mk(f'k!q{P.counter}')
     saved = P.merge_inner
     top = not P.txns
     if top:
@@ -424,9 +459,9 @@ def forall_keys(P, kname, fn):
     t = P._begin()
     try:
         try:
-            v = P.truthy(P.call(fn, [SymKey(x, kname)], {}))
+            v = P.truthy(P.call(fn, [wrap(x)], {}))
         except MergeAbort:
-            raise InterpError('forall_keys: the body forks or has side effects; make it branch-free '
+            raise InterpError(f'{what}: the body forks or has side effects; make it branch-free '
                               '(guard m[k] with `k in m and ...`)')
     finally:
         P._rollback(t)
